@@ -201,17 +201,23 @@ fn render_line(
                 DocIR::Text(t) => t.starts_with('|'),
                 _ => false,
             }) {
-                docs.push(ir::text("--- | "));
-
-                if let Some(first) = body.first() {
-                    let inner = match first {
-                        DocIR::SourceToken(t) => t.text()[1..].to_string(),
-                        DocIR::Text(t) if t.starts_with('|') => t[1..].to_string(),
-                        _ => String::new(),
-                    };
-                    if !inner.is_empty() {
-                        body[0] = ir::text(inner);
-                    }
+                // `---| x`, `---|+ x`, `--- |x` … → `--- | x` / `--- |+ x`: the bar (with its `+`/`>`
+                // marker) is emitted once, followed by one blank and the rest of the text.
+                let inner = match body.first() {
+                    Some(DocIR::SourceToken(t)) => t.text()[1..].to_string(),
+                    Some(DocIR::Text(t)) => t[1..].to_string(),
+                    _ => String::new(),
+                };
+                let marker_len = usize::from(inner.starts_with(['+', '>']));
+                let (marker, rest) = inner.split_at(marker_len);
+                let rest = rest.trim_start();
+                docs.push(ir::text(format!("--- |{marker}")));
+                body.remove(0);
+                if !rest.is_empty() {
+                    docs.push(ir::space());
+                    docs.push(ir::text(rest));
+                } else if !body.is_empty() && !body_has_leading_whitespace(&body) {
+                    docs.push(ir::space());
                 }
                 docs.append(&mut body);
             } else {
